@@ -344,6 +344,11 @@ def load_findings():
     return json.load(open(p))
 
 
+def known_findings(pid):
+    """recorded (unrepaired) findings of one property: dicts with 'property', 'match' (narrow predicate name) and 'text'"""
+    return [f for f in load_findings().get("findings", []) if isinstance(f, dict) and f.get("property") == pid]
+
+
 # ---------------------------------------------------------------- reporting
 class Report:
     def __init__(self, pid, tier, seed):
